@@ -237,6 +237,8 @@ def content_and_type(chk, prog, cfg):
                        f"{core.short(t['callee'])} on the opened file returns after one read: a large file is served as a prefix of itself with status 200", where=b.where(blk), cfg=cfg)
         if not reads:
             continue
+        if fn in set(getattr(prog, "new_functions", []) or []):
+            continue        # a helper split off the handler: looked at where it was inlined
         for blk, t in reads:
             buf = describe(prog, b, t["args"][1])
             fil = describe(prog, b, t["args"][0])
